@@ -23,6 +23,7 @@ import OFV.Proofs.C03Canon3
 import OFV.Proofs.C03Exact
 import OFV.Proofs.C03Main
 import OFV.Proofs.C03Boson
+import OFV.Proofs.C03Tensor
 import Mathlib.Tactic.NormNum
 
 namespace OFV.C03
@@ -300,6 +301,46 @@ theorem normal_ordered_sound_melF_tol (D : Nat) (hD : 0 < D) (tol : Rat) (h0 : 0
 -- non-vacuity: the extracted EQ_TOLERANCE admits the dyadic lattice 2^-26
 example : (0 : Rat) ≤ Generated.eqTolerance ∧ Generated.eqTolerance * ((2 ^ 26 : Nat) : Rat) ≤ 1 := by
   constructor <;> norm_num [Generated.eqTolerance]
+
+/-! ## the InteractionOperator branch -/
+
+/-- the three generators (`quadratic`, `cubic`, `quartic` index pairs built from
+`itertools.combinations` of the reversed range) enumerate EXACTLY the pairs `((p,q),(r,s))` with
+`n > p > q` and `n > r > s`. -/
+theorem interaction_index_pairs_iff (n : Nat) (x : Pair × Pair) :
+    x ∈ indexPairs n ↔ (x.1.2 < x.1.1 ∧ x.1.1 < n ∧ x.2.2 < x.2.1 ∧ x.2.1 < n) :=
+  mem_indexPairs_iff n x
+
+/-- closed form of the scattered assignments: the new two-body tensor is the antisymmetrised old
+one on `p > q ∧ r > s` and zero elsewhere (in particular: supported on `p > q, r > s`). -/
+theorem interaction_closed_form (n : Nat) (T : List GQ) (p q r s : Nat)
+    (hp : p < n) (hq : q < n) (hr : r < n) (hs : s < n) :
+    t4 n (normalOrderedTwoBody n T) p q r s =
+      if q < p ∧ s < r then antisym n T (p, q) (r, s) else 0 :=
+  normalOrderedTwoBody_closed n T p q r s hp hq hr hs
+
+/-- `normal_ordered(InteractionOperator)`: the new two-body tensor denotes the same operator
+`Σ T[p,q,r,s] a^†_p a^†_q a_r a_s`, for every interpretation satisfying the CAR (constant and
+one-body tensor are copied unchanged by the code: checked by the correspondence run). -/
+theorem interaction_normal_ordered_sound (I : Interp A)
+    (car_same : ∀ x l : Factor, x.2 = l.2 → x.1 ≠ l.1 → I.g l * I.g x + I.g x * I.g l = 0)
+    (car_sq : ∀ x l : Factor, x.2 = l.2 → x.1 = l.1 → I.g l * I.g x = 0) (n : Nat) (T : List GQ) :
+    den2 I n (normalOrderedTwoBody n T) = den2 I n T := by
+  have anti : ∀ (a p q : Nat), I.g (q, a) * I.g (p, a) = -(I.g (p, a) * I.g (q, a)) := by
+    intro a p q
+    by_cases h : p = q
+    · subst h
+      have := car_sq (p, a) (p, a) rfl rfl
+      rw [this]; simp
+    · have := car_same (p, a) (q, a) rfl h
+      exact eq_neg_of_add_eq_zero_left this
+  exact normalOrderedTwoBody_sound I n T (anti 1) (fun p => car_sq (p, 1) (p, 1) rfl rfl)
+    (anti 0) (fun r => car_sq (r, 0) (r, 0) rfl rfl)
+
+/-- … in particular in Fock space (the Spec). -/
+theorem interaction_normal_ordered_sound_fock (n : Nat) (T : List GQ) :
+    den2 fockInterp n (normalOrderedTwoBody n T) = den2 fockInterp n T :=
+  interaction_normal_ordered_sound fockInterp fock_car_same fock_car_sq n T
 
 /-! ## `chemist_ordered` and `reorder` only rewrite the operator -/
 
